@@ -2,10 +2,10 @@
 HOOK_COMMITS = ["575d9b7"]
 
 ENGINES = [
-    dict(name="tlc", path="/verif/spec", serves_properties=["C01", "C02", "C04", "C05", "C06", "C07", "C08", "C19"],
+    dict(name="tlc", path="/verif/spec", serves_properties=["C01", "C02", "C03", "C04", "C05", "C06", "C07", "C08", "C19"],
          kind_free_text="explicit TLA+ specification of the relay server (TurnServer.tla) model-checked exhaustively by TLC for small constants; "
                         "properties are invariants and action properties stated separately from the actions"),
-    dict(name="engine-A-walk", path="/verif/harness (TestWalk)", serves_properties=["C01", "C02", "C04", "C05", "C06", "C07", "C08", "C19"],
+    dict(name="engine-A-walk", path="/verif/harness (TestWalk)", serves_properties=["C01", "C02", "C03", "C04", "C05", "C06", "C07", "C08", "C19"],
          kind_free_text="TLC prints every edge of the state graph of a generation configuration; a planner covers all edges with paths from Init; "
                         "each path is replayed in lock-step on the real turn.Server (in-memory network, testing/synctest virtual time) and after every "
                         "step all datagrams at all endpoints and the projected tables of all clients are compared with the spec's expected outputs and target state"),
@@ -28,6 +28,7 @@ def core(design, what):
 TEXT = {
     "C01": core("6/C01", "Action property C01_OnlyAuthorised and invariant C01_NeverInstalled: every datagram toward a peer is justified by the sender's own live permission/channel in the pre-state, vetoed or wrong-family peers are never installed."),
     "C02": core("6/C02", "Action property C02_OnlyPermitted: everything a client receives because of a peer datagram goes to the owner only and is justified by a permission for the source IP or a channel bound to exactly the source."),
+    "C03": core("6/C03", "TurnAuth.tla: action properties C03_NoEffect / C03_OwnerOnly over every method x 18 credential defects x server states, with and without an auth handler; Nonce.tla: the acceptance table of both nonce implementations for every HMAC length 2..32, 11 mutation classes and ages up to 25 h; challenges must carry a nonce the server then accepts."),
     "C04": core("6/C04", "Frame condition C04_Isolation over three 5-tuples (same IP other port, other IP, shared users/peers/numbers/transaction ids): a step by one client changes nothing of, and emits nothing to or from, any other."),
     "C05": core("6/C05", "C05_WithinLimitsDelivered plus payload identity: within the documented limits an authorised datagram comes out exactly once with the submitted bytes and truthful attribution; beyond them whole or not at all."),
     "C06": core("6/C06", "C06_Exact and NoOrphans: the countdown armed equals the LIFETIME answered (requested if < 3600 else default), Refresh(0) deletes at once, nothing survives its allocation; probed one second before and at every expiry."),
